@@ -63,7 +63,7 @@ func cmdVerify(args []string) {
 		i, k := i, k
 		go func() {
 			sem <- struct{}{}
-			results[i] = e.VerifyFunc(e.cs.Funcs[k], *timeout)
+			results[i] = e.VerifyFunc(k, *timeout)
 			<-sem
 			done <- i
 		}()
@@ -72,6 +72,7 @@ func cmdVerify(args []string) {
 		<-done
 	}
 	total, failed := 0, 0
+	keepN := 0
 	for i, k := range keys {
 		r := results[i]
 		nf := 0
@@ -115,7 +116,8 @@ func cmdVerify(args []string) {
 			if o.Status != "discharged" || *verbose {
 				fmt.Printf("    %-10s %s  (%s %.2fs) %s %v\n", o.Status, o.Name, o.Backend, o.Secs, o.Pos, o.Answers)
 				if o.Status != "discharged" && *keep {
-					f := fmt.Sprintf("/tmp/govc-failed-%d.smt2", failed)
+					keepN++
+					f := fmt.Sprintf("/tmp/govc-failed-%d.smt2", keepN)
 					os.WriteFile(f, []byte(o.query+"(check-sat)\n(get-model)\n"), 0o644)
 					fmt.Println("       query:", f)
 				}
@@ -126,5 +128,3 @@ func cmdVerify(args []string) {
 	os.RemoveAll(scratch())
 }
 
-func cmdCheck(args []string)    { fmt.Println("not implemented"); os.Exit(2) }
-func cmdSelftest(args []string) { fmt.Println("not implemented"); os.Exit(2) }
